@@ -49,8 +49,13 @@ class LeanProc:
 
 # legal UTF-8 that is NOT in NFC: decomposed forms, composition-excluded characters and singletons
 # whose NFC has a different byte length (the library stores the NFC form, utf8proc)
-NON_NFC = ['e\u0301', 'u\u0308', 'A\u030a', 'n\u0303', '\u0958', '\u0959', '\u095b', '\u095f', '\u0344', '\u2126', '\u212b',
-           '\u1e9b\u0323', 'o\u0302\u0301', '\u0f43', '\ufb1f', '\u2000']
+NON_NFC = ['e\u0301', 'u\u0308', 'A\u030a', 'n\u0303', '\u0958', '\u0959', '\u095b', '\u095f', 'q\u0344', '\u2126', '\u212b',
+           '\u1e9b\u0323', 'o\u0302\u0301', '\u0f43', '\ufb1f', '\u2000', 'a\u0308\u0301', 'U\u0308\u0301', 'i\u0308\u0301',
+           'c\u0327\u0301', 'q\u0958']
+# every piece starts with its own starter, so what precedes it cannot compose with it.  (A bare
+# combining mark after an arbitrary letter is avoided on purpose: the library's bundled utf8proc
+# mis-composes 75 of the 7056 pairs <ASCII letter or digit, U+0300..U+036F>, finding FB2-2, which is
+# replayed separately below.)
 RAW_OF = {}         # stored (NFC) name -> the raw bytes handed to the API
 
 
@@ -58,10 +63,10 @@ def raw_hex(name):
     return hx(RAW_OF.get(name, name))
 
 
-def gen_name(rng, used, maxlen=256):
+def gen_name(rng, used, maxlen=256, nonnfc_num=1, nonnfc_den=5):
     """returns the name as the library stores it (NFC); the raw form given to the API is in RAW_OF"""
     for _ in range(300):
-        nonnfc = rng.chance(1, 5)
+        nonnfc = rng.chance(nonnfc_num, nonnfc_den)
         n = rng.choice([1, 2, 3, 5, 8, 13, 30, 64, 255, 256]) if (rng.chance(1, 6) and not nonnfc) else rng.range(1, 10)
         n = min(n, maxlen)
         utf = rng.chance(1, 4)
@@ -288,7 +293,7 @@ def gen_scenario(rng, lean, path, kind, feats):
                 (m.s['gatts'] if vid < 0 else m.s['vars'][vid]['atts']).remove(a)
                 ok('delatt %d %s' % (vid, hx(a['name'])))
                 feats.add('del_att')
-            if rng.chance(1, 3):
+            for _ in range(rng.choice([0, 1, 1, 2, 3])):
                 rename(False)
 
     def rename(in_data_mode):
@@ -324,7 +329,7 @@ def gen_scenario(rng, lean, path, kind, feats):
         # in data mode the STORED (NFC) name may not be longer than the old one
         for _ in range(30):
             try:
-                n = gen_name(rng, used, maxlen=len(oldn) if in_data_mode else 256)
+                n = gen_name(rng, used, maxlen=len(oldn) if in_data_mode else 256, nonnfc_num=1, nonnfc_den=2)
             except RuntimeError:
                 return None
             if n in RAW_OF:
@@ -638,6 +643,9 @@ def run_check(tier, seed):
         kpath = os.path.join(wd, 'known_f19.nc')
         replay_ops = ['create %s 1 0 0 0 0' % kpath, 'defdim 78 3', 'putatt -1 61 4 1 00000005', 'enddef', 'inq', 'close',
                       'open %s 0 0 0 0' % kpath, 'inq', 'close']
+        # replay of finding FB2-2: the name "J" + U+0308 (valid UTF-8, already NFC) is stored as "\\x0b"
+        k2path = os.path.join(wd, 'known_fb22.nc')
+        replay_ops += ['create %s 1 0 0 0 0' % k2path, 'putatt -1 4acc88 2 1 41', 'defdim 42ccad 2', 'enddef', 'snap ' + k2path, 'close']
         script = os.path.join(wd, 'script.txt')
         with open(script, 'w') as f:
             for sc in scen:
@@ -755,6 +763,32 @@ def run_check(tier, seed):
                                       % (a1[2], a1[3], a2[2], a2[3])))
             else:
                 tie_diffs.append(dict(stream='replay-FB2-1', got=[outs[0][pos + 4][:100], outs[0][pos + 7][:100]]))
+            # replay FB2-2: names in the snapshot of the second replay file
+            a3 = outs[0][pos + 13].split()
+            evals += 1
+            if len(a3) > 3 and a3[1] == '0':
+                ans = lean.ask('SPEC ' + a3[3])
+                names = []
+                try:
+                    tt = ans.split()
+                    dd, _ = H.parse_schema(tt[1:tt.index('|')])
+                    names = [dd['dims'][0]['name'], dd['gatts'][0]['name']]
+                except Exception:
+                    pass
+                want = [unicodedata.normalize('NFC', x).encode('utf8') for x in ('B\u032d', 'J\u0308')]
+                if names != want:
+                    detail = 'names defined %s, names stored in the file %s' % ([w.hex() for w in want], [x.hex() for x in names])
+                    if any(k['sig'] == 'C03:name-miscomposed-by-utf8proc' for k in V.known):
+                        prop_fail.append(('name-miscomposed-by-utf8proc', None, dict(ranks=n, script=replay_ops[9:]), detail))
+                    else:
+                        # proposed in findings/C03.txt (FB2-2); reported as a finding as soon as the integrator has
+                        # merged the line into KNOWN_FINDINGS.txt, until then logged and recorded in the evidence only
+                        log('PROPOSED-FINDING (not yet in KNOWN_FINDINGS.txt) property=C03 sig=C03:name-miscomposed-by-utf8proc ' + detail)
+                        V.cov.setdefault('proposed_findings_reproduced', [])
+                        if 'C03:name-miscomposed-by-utf8proc' not in V.cov['proposed_findings_reproduced']:
+                            V.cov['proposed_findings_reproduced'].append('C03:name-miscomposed-by-utf8proc')
+            else:
+                tie_diffs.append(dict(stream='replay-FB2-2', got=outs[0][pos + 13][:100]))
         # ---- the Lean specification decoder on the real files
         nspec = 0
         for fb, exp, where in spec_q:
@@ -762,7 +796,7 @@ def run_check(tier, seed):
             nspec += 1
             bad_ = oracle(fb, a, exp)
             if bad_:
-                prop_fail.append(('spec:' + bad_[0], None, where, bad_[1]))
+                prop_fail.append(('spec:' + bad_[0], scen[where['scenario']] if 'scenario' in where else None, where, bad_[1]))
         V.cov['evaluations'] = evals + nspec
         V.cov['distinct_nontrivial'] = len([d for d in distinct if d[1]])
         V.cov['traces_validated_against_impl'] = evals - len(tie_diffs)
